@@ -114,6 +114,106 @@ def run_row(row):
     return bad
 
 
+def float_laws(seed, n):
+    """The laws of Backoff.tla (LawSeq, default-count law, jitter interval) evaluated in float arithmetic on parameters the
+    rational grid cannot hold: not exactly representable values, stops one ulp around start*factor**k, long sequences,
+    parameters a hair outside the valid ranges, every count / jitter form, the real random source. 'Grows by exactly
+    factor' is read as the float product prev*factor (the statement quantifies over real parameters; the code computes in
+    floats)."""
+    import math
+    import itertools
+    import random as realrandom
+    from boltons import iterutils as it
+    rng = realrandom.Random(seed)
+    bad = []
+
+    def laws(vals, start, stop, factor, count, default):
+        if not vals:
+            return None if count == 0 else "empty"
+        if vals[0] != start:
+            return "first value is not start"
+        for i in range(1, len(vals)):
+            prev, cur = vals[i - 1], vals[i]
+            want = min(1.0, stop) if prev == 0 else (min(prev * factor, stop) if prev < stop else stop)
+            if cur != want:
+                return "value %d is %r, expected %r" % (i, cur, want)
+        if max(vals) > stop:
+            return "exceeds stop"
+        if default and (vals[-1] != stop or (len(vals) > 1 and vals[-2] == stop and not (start == stop))):
+            return "default count does not end at stop exactly once"
+        if not default and count is not None and len(vals) != count:
+            return "length %d for count %d" % (len(vals), count)
+        return None
+    points = []
+    for k in range(1, 9):
+        for st0, f in ((1.0, 3.0), (1.0, 10.0), (0.25, 10.0), (1.0, 2.0), (0.1, 1.5), (3.0, 7.0)):
+            p_ = st0 * f ** k
+            points += [(st0, x, f) for x in (p_, math.nextafter(p_, math.inf), math.nextafter(p_, 0.0))]
+    for _ in range(n):
+        st0 = rng.choice([0.0, 0.0, rng.uniform(0, 3), rng.choice([0.1, 0.3, 1e-6, 1.0, 2.5])])
+        f = rng.choice([1.01, 1.1, 1.5, 2.0, 3.0, 10.0, rng.uniform(1.001, 12)])
+        sp = rng.choice([st0 + rng.uniform(0, 50) if st0 else rng.uniform(1e-3, 50), st0 * f ** rng.randint(0, 12) if st0 else f ** rng.randint(-3, 8), max(st0, 1e6)])
+        if sp >= st0 and sp > 0:
+            points.append((st0, sp, f))
+    for st0, sp, f in points:
+        steps = 0 if (st0 or 1) >= sp else math.log(sp / (st0 or 1), f)
+        if steps > 3000:
+            continue
+        for default, count in ((True, None), (False, rng.choice([0, 1, 2, 7, 30]))):
+            for label, fn in (("backoff", it.backoff), ("backoff_iter", it.backoff_iter)):
+                try:
+                    kw = {} if default else {"count": count}
+                    if f != 2.0 or rng.random() < 0.5:
+                        kw["factor"] = f
+                    vals = list(fn(st0, sp, **kw)) if rng.random() < 0.7 or default else list(fn(st0, sp, count, f))
+                except Exception as ex:
+                    bad.append((label, {"start": st0, "stop": sp, "factor": f, "count": count, "why": "raised:" + core.exc_name(ex)}))
+                    continue
+                w = laws(vals, st0, sp, f, count, default)
+                if w:
+                    bad.append((label, {"start": st0, "stop": sp, "factor": f, "count": count, "why": w, "got": vals[:12]}))
+        # 'repeat': the un-jittered law on a prefix well past the cap
+        vals = list(itertools.islice(it.backoff_iter(st0, sp, count="repeat", factor=f), int(steps) + 6))
+        w = laws(vals, st0, sp, f, len(vals), False)
+        if w or vals[-1] != sp:
+            bad.append(("backoff_iter(repeat)", {"start": st0, "stop": sp, "factor": f, "why": w or "does not settle at stop", "got": vals[-4:]}))
+        # jitter with the real random source, every documented form, on default / counted / repeat sequences
+        for j in (True, 1, -1, 0.5, -0.5, 1e-9, 0, 0.0, False):
+            jf = float(j)
+            base = list(it.backoff_iter(st0, sp, count=6, factor=f))
+            got = list(it.backoff_iter(st0, sp, count=6, factor=f, jitter=j))
+            got_r = list(itertools.islice(it.backoff_iter(st0, sp, count="repeat", factor=f, jitter=j), 6))
+            for g_ in (got, got_r):
+                if len(g_) != len(base) or any(not (min(b, b * (1 - jf)) <= x <= max(b, b * (1 - jf))) for x, b in zip(g_, base)):
+                    bad.append(("backoff_iter(jitter)", {"start": st0, "stop": sp, "factor": f, "jitter": repr(j), "why": "outside the interval", "got": g_, "unjittered": base}))
+                    break
+            else:
+                if not jf and got != base:
+                    bad.append(("backoff_iter(jitter)", {"start": st0, "stop": sp, "factor": f, "jitter": repr(j), "why": "zero jitter changes values"}))
+    # a hair outside the valid ranges, with every count form: ValueError before anything is yielded
+    tiny = 5e-324
+    for args, kw in (((-tiny, 1.0), {}), ((1.0, -1.0), {}), ((0.0, 0.0), {}), ((0.0, -0.0), {}), ((2.0, math.nextafter(2.0, 0.0)), {}),
+                     ((1.0, 8.0), {"factor": math.nextafter(1.0, 0.0)}), ((1.0, 8.0), {"jitter": math.nextafter(1.0, 2.0)}),
+                     ((1.0, 8.0), {"jitter": math.nextafter(-1.0, -2.0)}), ((1.0, 8.0), {"jitter": 2})):
+        for count in (None, 0, 3, "repeat", -1):
+            if count == -1 and not (args == (1.0, -1.0)):
+                continue
+            for label, fn in (("backoff", it.backoff), ("backoff_iter", it.backoff_iter)):
+                if label == "backoff" and count == "repeat":
+                    continue
+                try:
+                    g = fn(*args, count=count, **kw)
+                    first = next(iter(g), "empty")
+                    bad.append((label + "(invalid)", {"args": [repr(a) for a in args], "kw": {k: repr(v) for k, v in kw.items()}, "count": count,
+                                                      "why": "no ValueError; first value %r" % (first,)}))
+                except ValueError:
+                    pass
+                except Exception as ex:
+                    bad.append((label + "(invalid)", {"args": [repr(a) for a in args], "kw": {k: repr(v) for k, v in kw.items()}, "count": count,
+                                                      "why": "raised:" + core.exc_name(ex)}))
+    return bad, len(points)
+
+
 def main(tier, seed):
     t0 = time.time()
     stats, verdict = Stats(), Verdict(PROP, tier, seed)
@@ -126,6 +226,12 @@ def main(tier, seed):
             sig = {"subject": "iterutils.backoff", "op": label.split("(")[0], "kind": row["kind"],
                    "start_zero": row["start"][0] == 0, "stop_below_one": q(row["stop"]) < 1}
             verdict.fail(sig, {"row": row, "call": label, "observed": got, "expected": [str(q(x)) for x in row["out"]]})
+    fbad, npoints = float_laws(seed, 3000 if tier == "thorough" else 400)
+    stats.extra["float_law_points"] = npoints
+    stats.edges_executed += npoints
+    for label, detail in fbad:
+        verdict.fail({"subject": "iterutils.backoff", "op": label.split("(")[0], "kind": "float-laws:" + (label.split("(")[1][:-1] if "(" in label else "sequence"),
+                      "why": detail["why"].split(",")[0][:40] if not detail["why"].startswith("value") else "growth"}, {"call": label, "observed": detail})
     probe = dict(next(x for x in rows if x["kind"] == "counted" and x["count"] == 5 and x["start"] == [1, 1] and x["stop"] == [8, 1] and x["factor"] == [2, 1]))
     probe["out"] = probe["out"][:-1] + [[7, 1]]
     if not run_row(probe):
